@@ -79,6 +79,7 @@ pub fn rename_template_names(forms: &[Form]) -> (Vec<Form>, Vec<&'static str>) {
             Form::Define(d) => Form::Define(Def { name: rn(&d.name), value: re(&d.value, &rn), sugar: d.sugar }),
             Form::Expr(e) => Form::Expr(re(e, &rn)),
             Form::Raw(s) => Form::Raw(s.clone()),
+            other => other.clone(),
         })
         .collect();
     (out, used)
